@@ -373,6 +373,13 @@ pub(crate) fn finalize_insertion_ctx(insertion_ctx: &mut InsertionContext) {
     insertion_ctx.solution.remove_empty_routes();
 
     insertion_ctx.problem.goal.accept_solution_state(&mut insertion_ctx.solution);
+
+    // NOTE: accepting the solution state can take an obsolete marker job (reload, recharge) out of a route
+    //       which holds nothing else, so the route is left without any job
+    if insertion_ctx.solution.routes.iter().any(|route_ctx| !route_ctx.route().tour.has_jobs()) {
+        insertion_ctx.solution.remove_empty_routes();
+        insertion_ctx.problem.goal.accept_solution_state(&mut insertion_ctx.solution);
+    }
 }
 
 pub(crate) fn apply_insertion_success(insertion_ctx: &mut InsertionContext, success: InsertionSuccess) {
